@@ -11,6 +11,16 @@ SPIDEV = "adafruit_bus_device.SPIDevice / digitalio.DigitalInOut: assumed to fra
 NOT_APPLICABLE = {}
 
 PROPERTIES = {
+    "C07": {
+        "level_text": "For _begin, _tx_standby, _write_to_pipe, _write, _net_update (with both frame handlers), update(), multicast(), RF24Network.write(), the multicast_level and node_address setters it is proved that from a listening node (registers: PWR_UP/PRIM_RX/CE, six pipes open on the node's own addresses with pipe 0 on its level address, EN_AA = 0x3E, dynamic payloads) the node is listening again on EVERY return path -- success, failed transmission, standby timeout, NETWORK_ACK timeout, fragment abort, loop-back, forwarding -- for every received payload, every oracle outcome of every transmission and every address. Waiting/fragment/receive loops carry inductive invariants (arbitrary iteration from an arbitrary invariant state) with mechanically checked havoc footprints; _write <-> _net_update recursion is by contract.",
+        "level_note": "Relative to A-HW; the RF24 calls are replaced by their C03/C08/C10 reference functions and by C02's send/resend contract with oracle outcomes; the frame queue is abstracted (accept/refuse oracle); termination of the waiting loops is argued from A-CLK (not mechanised); mesh entry points are covered when C17 is claimed; the user is assumed not to switch off dynamic payloads through the mixin and not to assign a reserved multicast address as node_address.",
+        "modules": ["spec.c07"],
+        "level": "proof",
+        "trusted_base": [ENGINE, A_HW, "A-CLK (termination of timeout loops, argued)", "C02 contract of send/resend as an oracle abstraction (spec/net_state.py ref_send_net/ref_resend_net)",
+                         "C03/C08/C10/C04/C11 reference functions stand in for the callees they were proved against", "frame queue abstracted by AbsQueue (never raises: C12)"],
+        "assumptions": [A_HW, "A-CLK", "A-RX-FIN: finitely many payloads arrive during a call", "dynamic payloads stay enabled (set by RF24.__init__) -- stated precondition",
+                        "node_address is never assigned a reserved multicast address", "message length <= max_message_length <= 6000"],
+    },
     "C09": {
         "level_text": "RF24.__enter__ is proved, from ANY register file (whatever other objects sharing the radio did) and any well-formed shadows, to leave every configuration register equal to the object's shadow attributes (Inv) with only PWR_UP set in the shadows; __exit__ to drive CE low, clear PWR_UP and keep Inv; RF24.__init__ to establish Inv (plus variant); the RadioMixin enter/exit to delegate without further register writes. With C03/C08/C10 (every call inside a block preserves Inv) and the frame fact that no method can reach another object's shadows, induction over the block sequence gives restoration for any number and interleaving of objects.",
         "level_note": "Assumes A-HW, A-SEP; the induction over blocks is an argument over the proved per-call contracts (stated in spec/c09.py), not a separately mechanised lemma; FakeBLE's constructor/exit are covered under C18's channel invariant when that property is claimed.",
